@@ -15,6 +15,9 @@ Parts:
   * std_str / std_read: printer with minimal brackets and recursive-descent reader for the *displayed* syntax under the
     ordinary conventions (unary minus > * > + -, left associative; ~ > & > | > -->, right associative; if-then-else
     extends as far to the right as possible)
+  * std_str_com / std_read_com: the same for commands (`;` right associative, loops with or without `[invariant]`);
+    the strict reader refuses texts whose command structure the grammar leaves open (conditional followed by `;`)
+  * hol_com_run: big-step interpreter for HOL terms of type (nat => nat) com (rules of Sem in library/hoare.json)
   * obj_to_json: reads an imperative.expr object through its public fields
   * hol_eval: evaluator for the HOL terms produced by convert_hol / imp.vcg_norm (python or z3 values)
   * z3_valid: validity of a condition through z3, counter-models validated by concrete evaluation
@@ -397,10 +400,16 @@ def tokens(s):
     return out
 
 
+class Ambiguous(ReadError):
+    """Text whose command structure the grammar of the tool does not pin down (a conditional directly followed by
+    `;`: both `(if .. else c); d` and `if .. else (c; d)` are derivations, and there is no convention to appeal to)."""
+
+
 class _Reader:
-    def __init__(self, toks):
+    def __init__(self, toks, strict=False):
         self.t = toks
         self.i = 0
+        self.strict = strict
 
     def peek(self):
         return self.t[self.i] if self.i < len(self.t) else None
@@ -519,11 +528,13 @@ class _Reader:
             return c
         raise ReadError('condition expected at token %d (%r)' % (self.i, tok))
 
-    # commands (only used to write the loop templates as text); `;` is right associative, branches of a conditional
-    # are single commands or blocks in braces
+    # commands; `;` is right associative, the first branch of a conditional extends to its `else`, the second one is a
+    # single command (or a block in braces, only used to write the loop templates)
     def com(self):
         a = self.atomk()
         if self.peek() == ';':
+            if self.strict and a[0] == 'if':
+                raise Ambiguous('conditional followed by ; at token %d' % self.i)
             self.eat()
             return ['seq', a, self.com()]
         return a
@@ -547,7 +558,8 @@ class _Reader:
             b = self.cond()
             self.eat(')')
             self.eat('then')
-            k1 = self.block()
+            # the mandatory `else` closes the first branch, which may therefore be a sequence
+            k1 = self.block() if self.peek() == '{' else self.com()
             self.eat('else')
             k2 = self.block()
             return ['if', b, k1, k2]
@@ -557,9 +569,12 @@ class _Reader:
             b = self.cond()
             self.eat(')')
             self.eat('{')
-            self.eat('[')
-            inv = self.cond()
-            self.eat(']')
+            if self.peek() == '[':
+                self.eat('[')
+                inv = self.cond()
+                self.eat(']')
+            else:
+                inv = ['true']      # a loop without an annotation carries the trivial invariant
             k = self.com()
             self.eat('}')
             return ['while', b, inv, k]
@@ -578,12 +593,42 @@ def std_read(s):
     return c
 
 
-def std_read_com(s):
-    r = _Reader(tokens(s))
+def std_read_com(s, strict=False):
+    """strict: refuse (Ambiguous) texts in which a conditional is directly followed by `;`."""
+    r = _Reader(tokens(s), strict)
     k = r.com()
     if r.peek() is not None:
         raise ReadError('trailing input at token %d (%r)' % (r.i, r.peek()))
     return k
+
+
+def std_str_com(k, bare=False, show=None):
+    """One-line concrete syntax of a command (the syntax of the examples in imperative/examples/test.json).  Nothing is
+    grouped: the language has no brackets for commands.  bare: a loop whose invariant is `true` is written without
+    the annotation.  show: printer for expressions and conditions (default std_str)."""
+    show = show or std_str
+    t = k[0]
+
+    def rec(x):
+        return std_str_com(x, bare, show)
+    if t == 'skip':
+        return 'skip'
+    if t == 'asg':
+        return '%s := %s' % (k[1], show(k[2]))
+    if t == 'seq':
+        return '%s; %s' % (rec(k[1]), rec(k[2]))
+    if t == 'if':
+        return 'if (%s) then %s else %s' % (show(k[1]), rec(k[2]), rec(k[3]))
+    if t == 'while':
+        if bare and k[2] == ['true']:
+            return 'while (%s) {%s}' % (show(k[1]), rec(k[3]))
+        return 'while (%s) {[%s] %s}' % (show(k[1]), show(k[2]), rec(k[3]))
+    raise Unsupported('std_str_com %r' % (t,))
+
+
+def strip_brackets(s):
+    """The text without ( ) -- what remains is read by precedence alone.  abs( / max( are kept out of such texts."""
+    return s.replace('(', '').replace(')', '')
 
 
 def tokens_without_brackets(s):
@@ -772,6 +817,72 @@ def dict_state_fun(d, default=0):
             raise Unsupported('symbolic index')
         return d.get(x, default)
     return f
+
+
+# ---------------------------------------------------------------- HOL commands (library/hoare.json)
+def hol_strip(t):
+    args = []
+    while getattr(t, 'ty', None) == COMB:
+        args.append(t.arg)
+        t = t.fun
+    return t, args[::-1]
+
+
+def hol_com_run(t, st, fvars=None, fuel=200, limit=10 ** 9):
+    """Big-step execution of a term of type (nat => nat) com, following the rules of Sem in library/hoare.json
+    (Skip = Basic id, Assign a b = Basic (%f. (f)(a := b f)), Sem_seq, Sem_if1/2, Sem_while_skip/loop).
+    st: dict index -> int (0 elsewhere).  Returns the final dict, or None when the fuel ran out / a value left the
+    range."""
+    fvars = fvars or {}
+    box = {'fuel': fuel}
+
+    def go(t, st):
+        head, args = hol_strip(t)
+        if getattr(head, 'ty', None) != CONST:
+            raise Unsupported('command head')
+        n = head.name
+        if n == 'Skip' and not args:
+            return st
+        if n == 'Assign' and len(args) == 2:
+            idx = hol_eval(args[0], fvars)
+            val = hol_eval(args[1], fvars)(dict_state_fun(st))
+            if not _py(idx, val):
+                raise Unsupported('symbolic assignment')
+            if not -limit <= val <= limit:
+                raise OutOfFuel()
+            st = dict(st)
+            st[idx] = val
+            return st
+        if n == 'Seq' and len(args) == 2:
+            return go(args[1], go(args[0], st))
+        if n == 'Cond' and len(args) == 3:
+            return go(args[1], st) if hol_eval(args[0], fvars)(dict_state_fun(st)) else go(args[2], st)
+        if n == 'While' and len(args) == 3:
+            b = hol_eval(args[0], fvars)
+            while b(dict_state_fun(st)):
+                if box['fuel'] <= 0:
+                    raise OutOfFuel()
+                box['fuel'] -= 1
+                st = go(args[2], st)
+            return st
+        raise Unsupported('command %s/%d' % (n, len(args)))
+    try:
+        return go(t, dict(st))
+    except OutOfFuel:
+        return None
+
+
+def hol_com_conds(t):
+    """(tag, term) of the guards and invariants of a HOL command, in text order."""
+    head, args = hol_strip(t)
+    n = getattr(head, 'name', None)
+    if n == 'Seq' and len(args) == 2:
+        return hol_com_conds(args[0]) + hol_com_conds(args[1])
+    if n == 'Cond' and len(args) == 3:
+        return [('if', args[0])] + hol_com_conds(args[1]) + hol_com_conds(args[2])
+    if n == 'While' and len(args) == 3:
+        return [('while', args[0]), ('inv', args[1])] + hol_com_conds(args[2])
+    return []
 
 
 # ---------------------------------------------------------------- z3
